@@ -408,7 +408,9 @@ fn write_long_bracket(value: &[u8]) -> Option<String> {
     equals.push(b']');
 
     loop {
-        if value.find(&equals).is_none() {
+        // the closing bracket must not appear in the value, nor be completed by
+        // the end of the value (a value ending with `]=` closes `[=[` early)
+        if value.find(&equals).is_none() && !value.ends_with(&equals[..equals.len() - 1]) {
             break;
         } else {
             i += 1;
